@@ -278,7 +278,7 @@ fn c09(ctx: &Ctx, rep: &mut Report) {
     std::env::set_var("HOME", HOME);
     let paths = namespace(&["a", "b"], 2);
     let (muts, _) = sweep_alphabet(&paths, false);
-    let cap = if ctx.thorough { 6000 } else { 500 };
+    let cap = if ctx.thorough { 20_000 } else { 1_200 };
     let (states, complete) = enumerate_states(&muts, cap);
     if !complete {
         rep.exhaustive = false;
@@ -831,7 +831,7 @@ fn c11(ctx: &Ctx, rep: &mut Report) {
     // oracle 2
     let paths = namespace(&["a", "b"], 2);
     let (muts, _) = sweep_alphabet(&paths, false);
-    let cap = if ctx.thorough { 3000 } else { 300 };
+    let cap = if ctx.thorough { 10_000 } else { 800 };
     let (states, complete) = enumerate_states(&muts, cap);
     if !complete {
         rep.exhaustive = false;
